@@ -30,9 +30,9 @@ Section Query.
     - specialize (IH ts). cbn [length] in *. lia.
   Qed.
 
-  Lemma stage_fuel s : simple_stage re_names s -> (S (stage_size s) <= 2 * length (print_stage anch re_names s))%nat.
+  Lemma stage_fuel s : simple_stage anch re_names s -> (S (stage_size s) <= 2 * length (print_stage anch re_names s))%nat.
   Proof.
-    destruct s as [o v ip|jl je|ll le| | |pt| |lt| | |rs ts|ls ms|ls ms|ls]; cbn [simple_stage]; intro H; try contradiction; cbn [stage_size print_stage length].
+    destruct s as [o v ip|jl je|ll le| | |pt| |lt| |q|rs ts|ls ms|ls ms|ls]; cbn [simple_stage]; intro H; try contradiction; cbn [stage_size print_stage length].
     - destruct ip; cbn; lia.
     - pose proof (print_names_len jl). lia.
     - pose proof (print_names_len ll). lia.
@@ -40,6 +40,7 @@ Section Query.
     - lia.
     - lia.
     - lia.
+    - pose proof (PredP.psize_le_print anch re_names (fun _ => []) (fun _ => []) (fun _ => []) q). lia.
     - pose proof (print_lf_len rs ts). lia.
     - pose proof (print_names_len ls). lia.
     - pose proof (print_names_len ls). lia.
